@@ -79,11 +79,21 @@ theorem reNumThen_print (c : UInt8) (hc : isDigit c = false) (hc32 : c.toNat ≠
   simp only [Option.bind_eq_bind, Option.bind_some]
   rw [skipSp_sp j _ (Stops_sp32_cons _ hc32), show (c :: r) = [c] ++ r from rfl, stripPrefix_append]; rfl
 
-/-- ` *(\d+): *(\d+) *\[ *(\d+): *(\d+) *\]` on printed numbers (after `k` leading blanks) -/
-theorem reFourNumbers_print (k pad a b c d : Nat) (rest : Str) :
-    reFourNumbers (sp k ++ (heapNumbers pad a b c d ++ rest)) = some (dec a, dec b, dec c, dec d, rest) := by
-  rw [heapNumbers_eq, sp_add]
-  unfold reFourNumbers
+/-- the four numbers without the leading blanks, followed by `rest` -/
+def heapNumsCore (pad a b c d : Nat) (rest : Str) : Str :=
+  dec a ++ (58 :: (sp (pad+1) ++ (dec b ++ (sp (pad+1) ++ (91 :: (sp pad ++ (dec c ++ (58 :: (sp (pad+1) ++
+    (dec d ++ (sp pad ++ (93 :: rest))))))))))))
+
+theorem heapNumbers_core (pad a b c d : Nat) (rest : Str) :
+    heapNumbers pad a b c d ++ rest = sp pad ++ heapNumsCore pad a b c d rest := heapNumbers_eq pad a b c d rest
+
+theorem heapNumsCore_append (pad a b c d : Nat) (x y : Str) :
+    heapNumsCore pad a b c d (x ++ y) = heapNumsCore pad a b c d x ++ y := by
+  simp [heapNumsCore, List.append_assoc]
+
+theorem reFourNumbers_core (k pad a b c d : Nat) (rest : Str) :
+    reFourNumbers (sp k ++ heapNumsCore pad a b c d rest) = some (dec a, dec b, dec c, dec d, rest) := by
+  unfold reFourNumbers heapNumsCore
   rw [reNumColon_print]
   simp only [Option.bind_eq_bind, Option.bind_some]
   rw [reNumThen_print 91 (by decide) (by decide)]
@@ -93,6 +103,11 @@ theorem reFourNumbers_print (k pad a b c d : Nat) (rest : Str) :
   rw [reNumThen_print 93 (by decide) (by decide)]
   rfl
 
+/-- ` *(\d+): *(\d+) *\[ *(\d+): *(\d+) *\]` on printed numbers (after `k` leading blanks) -/
+theorem reFourNumbers_print (k pad a b c d : Nat) (rest : Str) :
+    reFourNumbers (sp k ++ (heapNumbers pad a b c d ++ rest)) = some (dec a, dec b, dec c, dec d, rest) := by
+  rw [heapNumbers_core, sp_add]
+  exact reFourNumbers_core _ _ _ _ _ _ _
 
 /-! ### header -/
 def HeapKind.suffix : HeapKind → Str
@@ -319,5 +334,232 @@ theorem heapHeader_dispatch (d : HeapDoc) (hr : d.rate.all (· < two63) = true) 
       cases hkind : d.kind <;> simp [hkind, HeapKind.isHeap] at hk <;> simp [HeapDoc.v2, HeapDoc.period, HeapDoc.hasAlloc, hkind, HeapKind.isHeap]
     rw [hv.1, hv.2.1, hv.2.2]
     cases hkind : d.kind <;> simp [hkind, HeapKind.isHeap] at hk <;> simp [HeapKind.print] <;> decide
+
+
+/-! ### records -/
+/-- a record line without its indentation -/
+def HeapRec.core (pad w : Nat) (r : HeapRec) : Str :=
+  heapNumsCore pad r.inuseN r.inuseB r.allocN r.allocB (asc " @" ++ printAddrs w r.addrs)
+
+theorem HeapRec.print_eq (pad w : Nat) (r : HeapRec) : r.print pad w = sp (r.indent + pad) ++ r.core pad w := by
+  unfold HeapRec.print HeapRec.core
+  rw [List.append_assoc, List.append_assoc, heapNumbers_core, sp_add]
+
+theorem heapNumsCore_bytes (pad a b c d : Nat) :
+    ∀ x ∈ heapNumsCore pad a b c d [], isDigit x = true ∨ x = 32 ∨ x = 58 ∨ x = 91 ∨ x = 93 := by
+  intro x hx
+  apply heapNumbers_bytes pad a b c d x
+  have := heapNumbers_core pad a b c d []
+  simp only [List.append_nil] at this
+  rw [this]; simp [hx]
+
+theorem HeapRec.core_cons (pad w : Nat) (r : HeapRec) : ∃ c t, r.core pad w = c :: t ∧ isDigit c = true := by
+  obtain ⟨c, t, hd, hc⟩ := dec_cons r.inuseN
+  unfold HeapRec.core heapNumsCore
+  rw [hd]
+  exact ⟨c, _, rfl, hc⟩
+
+theorem HeapRec.core_reverse_stops (pad w : Nat) (r : HeapRec) : Stops isSpace (r.core pad w).reverse := by
+  unfold HeapRec.core
+  rw [heapNumsCore_append]
+  apply append_printAddrs_reverse_stops
+  · rw [show heapNumsCore pad r.inuseN r.inuseB r.allocN r.allocB (asc " @")
+          = heapNumsCore pad r.inuseN r.inuseB r.allocN r.allocB [] ++ asc " @" by rw [← heapNumsCore_append]; rfl]
+    exact Stops_reverse_append _ _ (by decide) (Stops_of_stopsB (by decide))
+  · simp [heapNumsCore, dec_ne_nil]
+
+theorem HeapRec.trim (pad w : Nat) (r : HeapRec) : trimSpace (r.print pad w) = r.core pad w := by
+  rw [HeapRec.print_eq]
+  obtain ⟨c, t, hd, hc⟩ := r.core_cons pad w
+  exact trimSpace_replicate _ _ (by rw [hd]; simpa using isSpace_false_of_isDigit hc) (r.core_reverse_stops pad w)
+
+theorem ne77_of_isDigit {b : UInt8} (h : isDigit b = true) : b ≠ 77 := by
+  intro e; subst e; revert h; decide
+
+theorem HeapRec.core_not_sentinel (pad w : Nat) (r : HeapRec) : isMemoryMapSentinel (r.core pad w) = false := by
+  apply not_sentinel_of_no_M
+  unfold HeapRec.core
+  rw [heapNumsCore_append,
+    show heapNumsCore pad r.inuseN r.inuseB r.allocN r.allocB (asc " @")
+      = heapNumsCore pad r.inuseN r.inuseB r.allocN r.allocB [] ++ asc " @" by rw [← heapNumsCore_append]; rfl]
+  intro hm
+  simp only [List.mem_append] at hm
+  rcases hm with (hm | hm) | hm
+  · rcases heapNumsCore_bytes _ _ _ _ _ 77 hm with h | h | h | h | h
+    · exact ne77_of_isDigit h rfl
+    all_goals (revert h; decide)
+  · revert hm; decide
+  · have := printAddrs_isAddrText w r.addrs 77 hm
+    revert this; decide
+
+theorem takeWhile_addrText (w : Nat) (as : List Nat) :
+    (printAddrs w as).takeWhile (fun x => x.toNat == 32 || x.toNat == 120 || isHexLower x) = printAddrs w as := by
+  have := takeWhile_append_stops (p := fun x => x.toNat == 32 || x.toNat == 120 || isHexLower x)
+    (a := printAddrs w as) (r := []) (printAddrs_isAddrText w as) (by simp)
+  simpa using this
+
+theorem matchHeapSampleAt_core (pad w : Nat) (r : HeapRec) :
+    matchHeapSampleAt (r.core pad w) = some (dec r.inuseN, dec r.inuseB, dec r.allocN, dec r.allocB, printAddrs w r.addrs) := by
+  unfold matchHeapSampleAt HeapRec.core
+  have := reFourNumbers_core 0 pad r.inuseN r.inuseB r.allocN r.allocB (asc " @" ++ printAddrs w r.addrs)
+  simp only [sp, List.replicate_zero, List.nil_append] at this
+  rw [this]
+  simp only [Option.bind_eq_bind, Option.bind_some, stripPrefix_append, takeWhile_addrText]
+  rfl
+
+theorem parseHeapSample_core (scale : ScaleFn) (pad w : Nat) (r : HeapRec) (rate : Nat) (v2 hasAlloc : Bool)
+    (hr : r.wf hasAlloc = true) :
+    parseHeapSample scale (r.core pad w) rate v2 hasAlloc =
+      .ok (heapSample scale hasAlloc v2 rate r.inuseN r.inuseB r.allocN r.allocB r.addrs) := by
+  simp only [HeapRec.wf, Bool.and_eq_true, decide_eq_true_eq, List.all_eq_true, Bool.or_eq_true,
+    bne_iff_ne, ne_eq, beq_iff_eq, Bool.not_eq_true'] at hr
+  obtain ⟨⟨⟨⟨⟨⟨⟨_, h1⟩, h2⟩, h3⟩, h4⟩, h5⟩, h6⟩, h7⟩ := hr
+  unfold parseHeapSample
+  rw [searchRe_of_some _ _ _ (matchHeapSampleAt_core pad w r)]
+  simp only [parseI64_dec h1, parseI64_dec h2, parseI64_dec h3, parseI64_dec h4,
+    parseHexAddresses_printAddrs w r.addrs h7]
+  have c1 : (hasAlloc && r.allocN == 0 && r.allocB != 0) = false := by
+    cases hasAlloc with
+    | false => rfl
+    | true =>
+      rcases h6 with (h | h) | h
+      · cases h
+      · simp [h]
+      · simp [h]
+  have c2 : (r.inuseN == 0 && r.inuseB != 0) = false := by
+    rcases h5 with h | h
+    · simp [h]
+    · simp [h]
+  simp [c1, c2]
+
+/-! ### the loop -/
+theorem trimSpace_filler (f : Filler) : isSpaceOrComment (trimSpace f.print) = true := by
+  unfold Filler.print
+  cases f.comment with
+  | none => simp [trimSpace_blank]; decide
+  | some t =>
+    simp only [trimSpace]
+    rw [trimLeft_replicate _ _ (by simp; decide)]
+    obtain ⟨t', ht'⟩ := trimRight_cons (c := 35) t (by decide)
+    rw [ht']
+    unfold isSpaceOrComment trimSpace
+    have : trimLeft (35 :: t') = 35 :: t' := dropWhile_stops (by simp; decide)
+    rw [this]
+    obtain ⟨t'', ht''⟩ := trimRight_cons (c := 35) t' (by decide)
+    rw [ht'']; rfl
+
+theorem heapLoop_fillers (scale : ScaleFn) (rate : Nat) (v2 hasAlloc : Bool) (fs : List Filler) (R : List Str)
+    (acc : List RawSample) :
+    heapLoop scale rate v2 hasAlloc (printFillers fs ++ R) acc = heapLoop scale rate v2 hasAlloc R acc := by
+  induction fs with
+  | nil => rfl
+  | cons f fs ih => simpa [printFillers, heapLoop, trimSpace_filler] using ih
+
+theorem heapLoop_rec (scale : ScaleFn) (rate : Nat) (v2 hasAlloc : Bool) (pad w : Nat) (r : HeapRec)
+    (hr : r.wf hasAlloc = true) (R : List Str) (acc : List RawSample) :
+    heapLoop scale rate v2 hasAlloc (r.print pad w :: R) acc =
+      heapLoop scale rate v2 hasAlloc R
+        (heapSample scale hasAlloc v2 rate r.inuseN r.inuseB r.allocN r.allocB r.addrs :: acc) := by
+  obtain ⟨c, t, hd, hc⟩ := r.core_cons pad w
+  have h1 : isSpaceOrComment (r.core pad w) = false := by
+    rw [hd]; exact isSpaceOrComment_head' _ (isSpace_false_of_isDigit hc) (ne35_of_isDigit hc)
+  rw [heapLoop]
+  simp only [HeapRec.trim, h1, r.core_not_sentinel pad w, Bool.false_eq_true, if_false,
+    parseHeapSample_core scale pad w r rate v2 hasAlloc hr]
+
+theorem heapLoop_recs (scale : ScaleFn) (rate : Nat) (v2 hasAlloc : Bool) (pad w : Nat) (rs : List HeapRec)
+    (h : ∀ r ∈ rs, r.wf hasAlloc = true) (R : List Str) (acc : List RawSample) :
+    heapLoop scale rate v2 hasAlloc (rs.flatMap (fun r => printFillers r.fill ++ [r.print pad w]) ++ R) acc
+      = heapLoop scale rate v2 hasAlloc R
+          ((rs.map (fun r => heapSample scale hasAlloc v2 rate r.inuseN r.inuseB r.allocN r.allocB r.addrs)).reverse ++ acc) := by
+  induction rs generalizing acc with
+  | nil => rfl
+  | cons r rs ih =>
+    simp only [List.flatMap_cons, List.append_assoc, heapLoop_fillers, List.singleton_append, List.cons_append,
+      List.nil_append]
+    rw [heapLoop_rec scale rate v2 hasAlloc pad w r (h r (by simp)), ih (fun x hx => h x (by simp [hx]))]
+    simp
+
+theorem heapLoop_tail (scale : ScaleFn) (rate : Nat) (v2 hasAlloc : Bool) (sentinel : Str)
+    (hs : sentinel = sentinelMemoryMap ∨ sentinel = sentinelMappedLibraries) (map : Option MapSection) (acc : List RawSample) :
+    heapLoop scale rate v2 hasAlloc (tailLines sentinel map) acc =
+      .ok (acc.reverse, (match tailLines sentinel map with | [] => [] | c :: _ => c),
+                        (match tailLines sentinel map with | [] => [] | _ :: r => r)) := by
+  cases map with
+  | none => simp [tailLines, heapLoop]
+  | some m =>
+    have h1 : isSpaceOrComment (trimSpace sentinel) = false := by rcases hs with rfl | rfl <;> decide
+    have h2 : isMemoryMapSentinel (trimSpace sentinel) = true := by rcases hs with rfl | rfl <;> decide
+    simp [tailLines, heapLoop, h1, h2]
+
+
+/-! ### the whole document -/
+theorem LineOK_heapNumbers (pad a b c d : Nat) : LineOK (heapNumbers pad a b c d) := by
+  intro x hx
+  rcases heapNumbers_bytes pad a b c d x hx with h | h | h | h | h
+  · simp only [isDigit, decide_eq_true_eq] at h; omega
+  all_goals (subst h; decide)
+
+theorem LineOK_heapKind (k : HeapKind) : LineOK k.print := by cases k <;> decide
+
+theorem parseHeap_printHeap (scale : ScaleFn) (d : HeapDoc) (h : d.wf = true) :
+    parseHeap scale (printHeap d) = .ok (expectedHeap scale d) := by
+  simp only [HeapDoc.wf, Bool.and_eq_true, List.all_eq_true, decide_eq_true_eq] at h
+  obtain ⟨⟨⟨⟨⟨⟨⟨hrecs, hpost⟩, hrate⟩, _⟩, _⟩, _⟩, _⟩, hmap⟩ := h
+  have hmap' : ∀ m, d.map = some m → m.wf = true := by
+    intro m hm; rw [hm] at hmap; exact hmap
+  have hsent : d.sentinel = sentinelMemoryMap ∨ d.sentinel = sentinelMappedLibraries := by
+    unfold HeapDoc.sentinel; cases d.libs <;> simp
+  have hsentOK : LineOK d.sentinel := by
+    rcases hsent with h | h <;> rw [h]
+    · exact LineOK_sentinelMemoryMap
+    · exact LineOK_sentinelMappedLibraries
+  have hsentS : isMemoryMapSentinel d.sentinel = true := by
+    rcases hsent with h | h <;> rw [h] <;> decide
+  have hlines : splitLines (printHeap d) = d.lines := by
+    apply splitLines_unlines
+    intro l hl
+    simp only [HeapDoc.lines, List.mem_append, List.mem_singleton, List.mem_flatMap] at hl
+    rcases hl with ((hl | ⟨r, hr, hl⟩) | hl) | hl
+    · subst hl
+      have h1 : LineOK (asc "heap profile: ") := by decide
+      have h2 : LineOK (asc " @ ") := by decide
+      have h3 : LineOK (match d.rate with | some r => if d.kind.isHeap then 47 :: dec r else [] | none => []) := by
+        cases d.rate with
+        | none => exact LineOK_nil
+        | some r =>
+          cases d.kind.isHeap with
+          | false => exact LineOK_nil
+          | true => exact LineOK_cons (by decide) (LineOK_dec r)
+      simp only [HeapDoc.headerLine]
+      lineok
+      exact ⟨⟨⟨⟨h1, LineOK_heapNumbers _ _ _ _ _⟩, h2⟩, LineOK_heapKind _⟩, h3⟩
+    · have hw := hrecs r hr
+      simp only [HeapRec.wf, Bool.and_eq_true, List.all_eq_true] at hw
+      rcases hl with hl | hl
+      · exact LineOK_fillers (List.all_eq_true.2 hw.1.1.1.1.1.1.1) l hl
+      · subst hl
+        have hlit : LineOK (asc " @") := by decide
+        simp only [HeapRec.print]
+        lineok
+        exact ⟨LineOK_heapNumbers _ _ _ _ _, hlit⟩
+    · exact LineOK_fillers (List.all_eq_true.2 hpost) l hl
+    · exact LineOK_tailLines hsentOK hmap' l hl
+  unfold parseHeap
+  rw [hlines]
+  unfold HeapDoc.lines
+  simp only [List.append_assoc, List.singleton_append, List.cons_append, List.nil_append, parseHeapLines]
+  rw [heapHeader_dispatch d (by simpa [Option.all_eq_true_iff_get, List.all_eq_true] using (show d.rate.all (· < two63) = true by
+    cases hq : d.rate with
+    | none => rfl
+    | some r => simpa [hq] using hrate))]
+  simp only []
+  rw [heapLoop_recs scale d.period d.v2 d.hasAlloc d.pad d.width d.recs hrecs, heapLoop_fillers,
+    heapLoop_tail _ _ _ _ _ hsent]
+  simp only [List.append_nil, List.reverse_reverse, expectedHeap]
+  have := parseAdditionalSections_tail d.sentinel hsentS d.map hmap'
+  cases hq : tailLines d.sentinel d.map with
+  | nil => rw [hq] at this; simp only [this]
+  | cons c r => rw [hq] at this; simp only [this]
 
 end PV.Legacy
